@@ -169,7 +169,12 @@ def _nontrivial(events):
             if e["results"] and e["results"][0] and len(tab["sl"]) >= 1:
                 seen.add(hash((fkey, "f", e["tab"], e["lang"]["tag"], tuple(e["on"]))))
         elif e["ev"] == "layout" and e["outs"]:
-            cm = dict((c, g) for c, g in (font["full"] if font["hasFull"] else font["bmp"]))
+            cm = {}
+            for key in ((3, 10), (0, 4), (3, 1), (0, 3)):      # (coverage counting only, no verdict)
+                subs = [st for st in font["cm"] if (st["p"], st["e"]) == key and st["ok"]]
+                if subs:
+                    cm = dict((c, g) for c, g in subs[0]["m"])
+                    break
             marks = set(font["marks"])
             eff = len(e["outs"][0]) != len(e["s"])
             for it in e["outs"][0]:
